@@ -17,6 +17,8 @@ use serde_json::Value;
 /// where the result goes (the C01 watchdog writes it when a call does not return)
 pub static OUT_PATH: std::sync::OnceLock<String> = std::sync::OnceLock::new();
 
+pub static LAST_PANIC: std::sync::Mutex<String> = std::sync::Mutex::new(String::new());
+
 pub struct Outcome {
     pub report: Report,
     pub rule: String,
@@ -25,7 +27,12 @@ pub struct Outcome {
 }
 
 fn main() {
-    std::panic::set_hook(Box::new(|_| {}));
+    // panics are caught where the implementation is called; the hook only remembers where the last one came from
+    std::panic::set_hook(Box::new(|info| {
+        if let (Some(l), Ok(mut g)) = (info.location(), LAST_PANIC.lock()) {
+            *g = format!("{}:{}", l.file(), l.line());
+        }
+    }));
     let args: Vec<String> = std::env::args().collect();
     if args.len() < 4 {
         eprintln!("usage: hv run <ID> <tier> <out.json> | hv replay <ID> <file>");
@@ -41,9 +48,24 @@ fn main() {
             let _ = OUT_PATH.set(out.clone());
             let thorough = tier == "thorough";
             let t0 = std::time::Instant::now();
-            let Some(o) = props::run(id, thorough) else {
-                eprintln!("unknown property {id}");
-                std::process::exit(2);
+            let o = match std::panic::catch_unwind(|| props::run(id, thorough)) {
+                Ok(Some(o)) => o,
+                Ok(None) => {
+                    eprintln!("unknown property {id}");
+                    std::process::exit(2);
+                }
+                Err(_) => {
+                    // a panic that escaped every guard: inside the repository it is a violation (the implementation
+                    // panicked on an explored input), anywhere else it is an engine failure
+                    let at = LAST_PANIC.lock().map(|g| g.clone()).unwrap_or_default();
+                    let mut r = Report::new();
+                    if at.starts_with("/repo/") || at.starts_with("huginn-net") {
+                        r.dev(format!("{id}/implementation-panicked-at/{at}"), "panic", || serde_json::json!({"panic_location": at, "detail": "the implementation panicked on an explored input outside a guarded call; the run was aborted"}));
+                    } else {
+                        r.machinery_error(format!("engine panicked at {at}"));
+                    }
+                    Outcome { report: r, rule: "aborted".into(), exhaustive: false, bounds: Value::Null }
+                }
             };
             let wall = t0.elapsed().as_secs_f64();
             let j = o.report.to_json(id, tier, &o.rule, o.exhaustive, o.bounds, wall);
